@@ -569,6 +569,7 @@ class VerusResult:
     def to_json(self):
         return {"unit": self.unit, "status": self.status, "reason": self.reason, "verus_functions_verified": self.verified_fns,
                 "named_obligations": self.named, "failed": self.failed, "wall_s": round(self.time_s, 2),
+                "stability_under_solver_seeds": getattr(self, "stability", []),
                 "smt_ms": self.smt_ms, "extraction_transforms": self.transforms, "assumption_scan": self.scan,
                 "functions_under_contract": self.functions, "assumptions": self.assumptions,
                 "function_breakdown": self.fn_breakdown, "textual_side_conditions": self.textual,
@@ -589,7 +590,7 @@ def unannotated_closures(ub):
     return n
 
 
-def run_unit(recipe_mod, workdir):
+def run_unit(recipe_mod, workdir, stability_seeds=()):
     """recipe_mod.build() -> UnitBuild. Returns VerusResult."""
     name = recipe_mod.NAME
     r = VerusResult(name)
@@ -690,6 +691,17 @@ def run_unit(recipe_mod, workdir):
         bad = [t for t in r.textual if not t["holds"]]
         if bad:
             r.status, r.reason = "undecided", "textual side condition on excluded code no longer holds: %s (%r)" % (bad[0]["check"], bad[0]["text"])
+        # thorough tier: the same input again under other solver seeds; a proof that does not survive a reseeding is
+        # reported as undecided (unstable), never as a violation
+        r.stability = []
+        for sd in stability_seeds:
+            rc2, out2, secs2 = common.run(["verus", path, "--output-json", "--rlimit", "50", "--smt-option", "smt.random_seed=%d" % sd],
+                                          cwd=workdir, timeout=600)
+            _d2, sum2 = _split_output(out2)
+            ok2 = bool(((sum2 or {}).get("verification-results", {}) or {}).get("success"))
+            r.stability.append({"smt.random_seed": sd, "verified": ok2, "seconds": round(secs2, 1)})
+            if not ok2 and r.status == "ok":
+                r.status, r.reason = "undecided", "proof not stable: fails under solver seed %d" % sd
     elif r.verified_fns == 0:
         r.status, r.reason = "undecided", "zero functions verified (vacuous)"
     else:
